@@ -431,3 +431,85 @@ M("C13", "set-option-stringifies-other-types-first-unpinned-site", F, "", "", "C
     (F, _SET_OPTION, _SET_OPTION.replace("        value = value_to_string(value)\n", "        if not isinstance(value, (bytes, str)):\n            value = str(value)\n        value = value_to_string(value)\n")),
     (F, _X64_LOOP, _X64_HEAD + _X86_FOR + "                    v = repr(v)[2:-1]\n" + _X86_BODY)])
 T("C13", "twin-fix-b-translate-table", F, "", "", edits=_FIX_B + _translate(_TABLE_DOUBLING))
+
+# ------------------------------------------------------------------------------------------------ wave 4
+# (a) a grammar rule that repeated another one refers to it through an inlined ('?') unit production, a rule is split into
+# named groups of alternatives, a repetition goes through an always-inlined `_rule`: the same trees (`_alts`)
+_POST_OPTIONS = (
+    "http_post_options: \"set\" \"uri\" string \";\"           -> uri\n    | \"set\" \"verb\" string \";\"                       -> verb\n"
+    "    | \"client\" \"{\" http_get_client_options* \"}\"     -> client\n    | \"server\" \"{\" http_options* \"}\"                -> server\n"
+)
+_GET_OPTIONS = (
+    "http_get_options: \"set\" \"uri\" string \";\"            -> uri\n    | \"set\" \"verb\" string \";\"                       -> verb\n"
+    "    | \"client\" \"{\" http_get_client_options* \"}\"     -> client\n    | \"server\" \"{\" http_options* \"}\"                -> server\n"
+)
+T("C13", "twin-grammar-post-options-refer-to-get-options", G, _POST_OPTIONS, "?http_post_options: http_get_options\n")
+T("C13", "twin-grammar-post-options-refer-through-two-rules", G, _POST_OPTIONS, "?http_post_options: http_verb_block_options\n\n?http_verb_block_options: http_get_options\n")
+T("C13", "twin-grammar-get-options-split-into-groups", G, _GET_OPTIONS,
+  "?http_get_options: http_request_line | http_sides\n\n"
+  "?http_request_line: \"set\" \"uri\" string \";\"          -> uri\n    | \"set\" \"verb\" string \";\"                       -> verb\n\n"
+  "?http_sides: \"client\" \"{\" http_get_client_options* \"}\"  -> client\n    | \"server\" \"{\" http_options* \"}\"                -> server\n")
+T("C13", "twin-grammar-steps-through-inlined-rule", G, "steps: transform_statement*\n", "steps: _transform*\n\n_transform: transform_statement\n")
+M("C13", "grammar-post-options-refer-to-wrong-rule", G, _POST_OPTIONS, "?http_post_options: http_options\n", "C13.R1")
+M("C13", "grammar-get-options-split-loses-verb", G, _GET_OPTIONS,
+  "?http_get_options: http_request_line | http_sides\n\n"
+  "?http_request_line: \"set\" \"uri\" string \";\"          -> uri\n\n"
+  "?http_sides: \"client\" \"{\" http_get_client_options* \"}\"  -> client\n    | \"server\" \"{\" http_options* \"}\"                -> server\n", "C13.R1")
+M("C13", "grammar-steps-through-inlined-rule-of-terminations", G, "steps: transform_statement*\n", "steps: _transform*\n\n_transform: termination_statement\n", "C13.R9")
+
+# (b) the flag statements of a builder class are installed by a class decorator / a module-level loop instead of one
+# assignment per name in the class body (`_Interp._late_attrs`)
+_GATE_FLAGS = [
+    "none", "comms", "core", "cleanup", "all", "internetopena", "internetconnecta", "virtualalloc", "virtualallocex", "virtualprotect", "virtualprotectex", "virtualfree",
+    "getthreadcontext", "setthreadcontext", "resumethread", "createthread", "createremotethread", "openprocess", "openthread", "closehandle", "createfilemappinga",
+    "mapviewoffile", "unmapviewoffile", "virtualquery", "duplicatehandle", "readprocessmemory", "writeprocessmemory", "exitthread",
+]
+_GATE_BODY = "".join(f"    {n} = ConfigBlock._enable\n" for n in _GATE_FLAGS) + "\n"
+_GATE_CLASS = "class BeaconGateBlock(ConfigBlock):\n"
+_PROFILE_CLASS = "class C2Profile(ConfigBlock):\n"
+
+
+def _flag_decorator(names):
+    return (
+        "def _statements(primitive, *names):\n    def install(block_class):\n        for name in names:\n            setattr(block_class, name, primitive)\n"
+        "        return block_class\n\n    return install\n\n\n"
+        "@_statements(ConfigBlock._enable, " + ", ".join(f"\"{n}\"" for n in names) + ")\n" + _GATE_CLASS
+    )
+
+
+def _flag_loop(names):
+    return ("for _flag in (" + ", ".join(f"\"{n}\"" for n in names) + "):\n    setattr(BeaconGateBlock, _flag, ConfigBlock._enable)\nBeaconGateBlock.none = ConfigBlock._enable\n\n\n"
+            + _PROFILE_CLASS)
+
+
+T("C13", "twin-gate-flags-by-class-decorator", F, "", "", edits=[(F, _GATE_BODY, ""), (F, _GATE_CLASS, _flag_decorator(_GATE_FLAGS))])
+M("C13", "gate-flags-by-class-decorator-one-missing", F, "", "", "C13.R2",
+  edits=[(F, _GATE_BODY, ""), (F, _GATE_CLASS, _flag_decorator([n for n in _GATE_FLAGS if n != "mapviewoffile"]))])
+T("C13", "twin-gate-flags-by-module-level-loop", F, "", "", edits=[(F, _GATE_BODY, ""), (F, _PROFILE_CLASS, _flag_loop(_GATE_FLAGS[1:]))])
+M("C13", "gate-flags-by-module-level-loop-one-missing", F, "", "", "C13.R2",
+  edits=[(F, _GATE_BODY, ""), (F, _PROFILE_CLASS, _flag_loop([n for n in _GATE_FLAGS[1:] if n != "openthread"]))])
+T("C13", "twin-gate-flags-in-mixin-base", F, "", "", edits=[
+    (F, _GATE_BODY, ""), (F, _GATE_CLASS, "class _GateFlags:\n" + _GATE_BODY + "\nclass BeaconGateBlock(_GateFlags, ConfigBlock):\n")])
+
+# (c) R6: the non-emptiness test is held in a temporary / spelled bool(..), the attachment uses keyword arguments
+T("C13", "twin-non-empty-named-test-keywords", F, _NON_EMPTY,
+  "        has_content = bool(config_block.tree.children)\n        if has_content:\n            self.set_config_block(option=option, config_block=config_block)\n")
+T("C13", "twin-non-empty-named-negated-test", F, _NON_EMPTY,
+  "        is_empty = len(config_block.tree.children) == 0\n        if is_empty:\n            return\n        self.set_config_block(option, config_block=config_block)\n")
+M("C13", "non-empty-named-test-on-own-tree", F, _NON_EMPTY,
+  "        has_content = bool(self.tree.children)\n        if has_content:\n            self.set_config_block(option=option, config_block=config_block)\n", "C13.R6")
+M("C13", "non-empty-named-test-inverted", F, _NON_EMPTY,
+  "        is_empty = len(config_block.tree.children) == 0\n        if not is_empty:\n            return\n        self.set_config_block(option, config_block=config_block)\n", "C13.R6")
+T("C13", "twin-epilogue-named-guard", F, _STAGE_EPI, "        stage_has_content = bool(stage.tree.children)\n        if stage_has_content:\n            profile.set_config_block(\"stage\", stage)\n")
+
+# (d) R12 (= C10.R3): the text renderer passes every token on unchanged - rewrites of the laid-out text reach into quoted values
+_EMIT = (
+    "                    for i, x in enumerate(line):\n                        yield x\n"
+    "                        if len(line) > i + 1 and line[i + 1] != \";\":\n                            yield \" \"\n"
+)
+_RENDER = "        return Reconstructor(c2profile_parser).reconstruct(self.tree, postproc)\n"
+M("C13", "renderer-collapses-double-blanks-of-the-line", F, _EMIT, "                    yield \" \".join(line).replace(\"  \", \" \").replace(\" ;\", \";\")\n", "C13.R12")
+M("C13", "renderer-expands-tabs-in-items", F, "                        yield x\n", "                        yield x.expandtabs(4)\n", "C13.R12")
+M("C13", "renderer-tidies-blank-before-brace-in-result", F, _RENDER,
+  "        text = Reconstructor(c2profile_parser).reconstruct(self.tree, postproc)\n        return text.replace(\" }\", \"}\")\n", "C13.R12")
+T("C13", "twin-renderer-named-result", F, _RENDER, "        text = Reconstructor(c2profile_parser).reconstruct(self.tree, postproc=postproc)\n        return text\n")
